@@ -351,9 +351,11 @@ class CodeBuilder:
     def _add_unpack_method_lines_lazy(self, method_name: str) -> None:
         if self.default_dialect is not None:
             self.add_type_modules(self.default_dialect)
+        self.ensure_object_imported(self.initial_type_args, "__type_args")
         self.add_line(
             f"CodeBuilder("
             f"cls,"
+            f"type_args=__type_args,"
             f"first_method='{method_name}',"
             f"allow_postponed_evaluation=False,"
             f"format_name='{self.format_name}',"
@@ -815,9 +817,11 @@ class CodeBuilder:
     def _add_pack_method_lines_lazy(self, method_name: str) -> None:
         if self.default_dialect is not None:
             self.add_type_modules(self.default_dialect)
+        self.ensure_object_imported(self.initial_type_args, "__type_args")
         self.add_line(
             "CodeBuilder("
             "self.__class__,"
+            "type_args=__type_args,"
             f"first_method='{method_name}',"
             "allow_postponed_evaluation=False,"
             f"format_name='{self.format_name}',"
